@@ -4,10 +4,12 @@
 package filer
 
 import (
+	"context"
 	"time"
 
 	"google.golang.org/grpc"
 
+	"github.com/chrislusf/seaweedfs/weed/pb/filer_pb"
 	"github.com/chrislusf/seaweedfs/weed/util"
 	"github.com/chrislusf/seaweedfs/weed/util/log_buffer"
 	"github.com/chrislusf/seaweedfs/weed/wdclient"
@@ -42,4 +44,14 @@ func (f *Filer) VerifDrainDeletionQueue() (fileIds []string) {
 		fileIds = append(fileIds, ids...)
 	})
 	return
+}
+
+// VerifFilerForLogBuffer wraps an existing log buffer in a Filer value so that the
+// real logMetaEvent (marshal the event with its timestamp, append it to the local
+// meta log) can be driven without a store.
+func VerifFilerForLogBuffer(lb *log_buffer.LogBuffer) *Filer { return &Filer{LocalMetaLogBuffer: lb} }
+
+// VerifLogMetaEvent is logMetaEvent.
+func (f *Filer) VerifLogMetaEvent(fullpath string, ev *filer_pb.EventNotification) {
+	f.logMetaEvent(context.Background(), fullpath, ev)
 }
